@@ -457,7 +457,7 @@ func TestC07(t *testing.T) {
 	}
 
 	// 2. random triples
-	rapidCheck(t, "ops", tierN(12000, 300000), func(rt *rapid.T) {
+	rapidCheck(t, "ops", tierN(36000, 300000), func(rt *rapid.T) {
 		a, b, c := genGL().Draw(rt, "a"), genGL().Draw(rt, "b"), genGL().Draw(rt, "c")
 		var cmask uint64
 		if rapid.IntRange(0, 5).Draw(rt, "const") == 0 {
@@ -468,7 +468,7 @@ func TestC07(t *testing.T) {
 
 	// 3. reduce
 	widths := []uint64{0, 0, 0, 64, 80, 96, 128, 144}
-	rapidCheck(t, "reduce", tierN(8000, 200000), func(rt *rapid.T) {
+	rapidCheck(t, "reduce", tierN(24000, 200000), func(rt *rapid.T) {
 		bits := rapid.SampledFrom(widths).Draw(rt, "bits")
 		w := bits
 		if w == 0 {
@@ -511,7 +511,7 @@ func TestC07(t *testing.T) {
 	})
 
 	// 4. operation sequences on the engine and on compiled systems
-	rapidCheck(t, "programs", tierN(2500, 60000), func(rt *rapid.T) {
+	rapidCheck(t, "programs", tierN(5000, 60000), func(rt *rapid.T) {
 		p := genProg().Draw(rt, "program")
 		p.Backend = rapid.SampledFrom([]string{"eng", "r1cs", "r1cs", "scs"}).Draw(rt, "backend")
 		p.Mode = rapid.IntRange(0, 1).Draw(rt, "mode")
